@@ -113,3 +113,31 @@ Section Cor.
     injection H as H1 H2. rewrite H1 in H2. now symmetry.
   Qed.
 End Cor.
+
+(** dynamic scope: the outermost resource that declares the dynamic anchor is chosen (C06) *)
+Section Dyn.
+  Variable e : env.
+  Definition declares (l : loc) (a : str) (t : loc) : Prop :=
+    exists li bi, info_at e l = Some li /\ info_at e (ri_base li) = Some bi /\ lookup a (ri_anchors bi) = Some (t, true).
+  Definition declares_none (l : loc) (a : str) : Prop :=
+    exists li bi, info_at e l = Some li /\ info_at e (ri_base li) = Some bi /\
+                  (forall t, lookup a (ri_anchors bi) <> Some (t, true)).
+
+  Lemma scope_lookup_outermost C1 l C2 a t :
+    Forall (fun l' => declares_none l' a) C1 -> declares l a t ->
+    scope_lookup e (C1 ++ l :: C2) a = Some (Some t).
+  Proof.
+    intros H1 (li & bi & Hl & Hb & Ha). induction H1 as [|l' r (li' & bi' & Hl' & Hb' & Hn) Hr IH]; cbn.
+    - now rewrite Hl, Hb, Ha.
+    - rewrite Hl', Hb'. destruct (lookup a (ri_anchors bi')) as [[t' [|]]|] eqn:E; try exact IH.
+      exfalso. exact (Hn t' eq_refl).
+  Qed.
+
+  Lemma scope_lookup_fallback C a :
+    Forall (fun l' => declares_none l' a) C -> scope_lookup e C a = Some None.
+  Proof.
+    induction 1 as [|l' r (li' & bi' & Hl' & Hb' & Hn) Hr IH]; cbn; [reflexivity|].
+    rewrite Hl', Hb'. destruct (lookup a (ri_anchors bi')) as [[t' [|]]|] eqn:E; try exact IH.
+    exfalso. exact (Hn t' eq_refl).
+  Qed.
+End Dyn.
